@@ -98,8 +98,10 @@ theorem coh_tryAdd {cfg names s o n} (h : Coh names s) (hn : n ∈ names) :
       · exact h
       · split
         · exact h
-        · rename_i hal
-          exact coh_addCore h hn (by simpa using hal)
+        · split
+          · exact h
+          · rename_i hal
+            exact coh_addCore h hn (by simpa using hal)
 
 /-- One step preserves coherence. -/
 theorem coh_step (cfg : Cfg) (names : List String) (s : State) (op : Op)
@@ -108,9 +110,11 @@ theorem coh_step (cfg : Cfg) (names : List String) (s : State) (op : Op)
   cases op with
   | steal v k => simp [Op.local] at hloc
   | setattr key v =>
-    cases v with
-    | other => exact h
-    | hdl o => exact coh_tryAdd h (hop key (by simp [Op.names]))
+    by_cases hk : key ∈ cfg.priv
+    · simp only [step, hk, if_true]; exact h
+    · cases v with
+      | other => simp only [step, hk, if_false]; exact h
+      | hdl o => simp only [step, hk, if_false]; exact coh_tryAdd h (hop key (by simp [Op.names]))
   | add v name =>
     cases v with
     | other => exact h
@@ -211,12 +215,16 @@ theorem coh'_step (cfg : Cfg) (names : List String) (s : State) (op : Op)
         · exact h
         · split
           · exact h
-          · rename_i hal; exact coh'_addCore h hn (by simpa using hal)
+          · split
+            · exact h
+            · rename_i hal; exact coh'_addCore h hn (by simpa using hal)
   cases op with
   | setattr key v =>
-    cases v with
-    | other => exact h
-    | hdl o => exact tryAdd' o key (hop key (by simp [Op.names]))
+    by_cases hk : key ∈ cfg.priv
+    · simp only [step, hk, if_true]; exact h
+    · cases v with
+      | other => simp only [step, hk, if_false]; exact h
+      | hdl o => simp only [step, hk, if_false]; exact tryAdd' o key (hop key (by simp [Op.names]))
   | add v name =>
     cases v with
     | other => exact h
@@ -260,7 +268,9 @@ theorem refines_map (cfg : Cfg) (names : List String) (s : State) (o : Obj) (n :
       · exact ⟨fun h => (by cases h), fun _ => rfl⟩
       · split
         · exact ⟨fun h => (by cases h), fun _ => rfl⟩
-        · exact ⟨fun _ m => rfl, fun h => (by cases h)⟩
+        · split
+          · exact ⟨fun h => (by cases h), fun _ => rfl⟩
+          · exact ⟨fun _ m => rfl, fun h => (by cases h)⟩
 
 /-- Attribute access agrees with `get` for every non-native name. -/
 theorem getattr_agrees (cfg : Cfg) (names : List String) (s : State) (n : String)
@@ -277,15 +287,25 @@ theorem getattr_agrees (cfg : Cfg) (names : List String) (s : State) (n : String
     and a second name for an object that is already held. None of them changes the state. -/
 theorem rejections (cfg : Cfg) (names : List String) (s : State) :
     (∀ o n, n ∈ cfg.banned → tryAdd cfg names s o n = (s, .reject)) ∧
-    (∀ k, step cfg names s (.setattr k .other) = (s, .reject)) ∧
+    (∀ k, k ∉ cfg.priv → step cfg names s (.setattr k .other) = (s, .reject)) ∧
     (∀ nm, step cfg names s (.add .other nm) = (s, .reject)) ∧
     (∀ n, step cfg names s (.delattr n) = (s, .reject)) ∧
     (s.frozen = true → ∀ o n, tryAdd cfg names s o n = (s, .reject)) ∧
     (∀ o n, aliased names s o n = true → tryAdd cfg names s o n = (s, .reject)) := by
-  refine ⟨?_, fun _ => rfl, fun _ => rfl, fun _ => rfl, ?_, ?_⟩
+  refine ⟨?_, ?_, fun _ => rfl, fun _ => rfl, ?_, ?_⟩
   · intro o n hb; unfold tryAdd; simp [hb]
-  · intro hf o n; unfold tryAdd; simp only [hf]; split <;> (try rfl); split <;> rfl
-  · intro o n ha; unfold tryAdd; simp only [ha]; split <;> (try rfl); split <;> (try rfl); split <;> rfl
+  · intro k hk; unfold step; simp [hk]
+  · intro hf o n; unfold tryAdd; simp only [hf]; split <;> (try rfl); split <;> (try rfl); split <;> rfl
+  · intro o n ha; unfold tryAdd; simp only [ha]; split <;> (try rfl); split <;> (try rfl); split <;> (try rfl); split <;> rfl
+
+/-- **Names with a leading underscore are never HDL names**: `add` refuses them whatever is added, and an assignment to one stores a plain
+    Python attribute — nothing is filed and the namespace is as it was (so that `get`, attribute access and the views cannot come to
+    disagree about such a name). -/
+theorem underscore_names (cfg : Cfg) (names : List String) (s : State) (n : String) (hn : n ∈ cfg.priv) :
+    (∀ o, tryAdd cfg names s o n = (s, .reject)) ∧ (∀ v, step cfg names s (.setattr n v) = (s, .ok)) := by
+  refine ⟨?_, ?_⟩
+  · intro o; unfold tryAdd; simp only [hn]; split <;> rfl
+  · intro v; unfold step; simp [hn]
 
 /-- After `elaborate` every further addition is rejected. -/
 theorem frozen_after_elab (cfg : Cfg) (names : List String) (s : State) (o : Obj) (n : String) :
